@@ -376,8 +376,32 @@ fn write_outputs(out: &Path, prop: Prop, totals: &Totals) -> std::io::Result<()>
         })
         .collect::<Vec<_>>()
         .join(",");
-    let hist_json = totals
-        .hist
+    let mut hist = totals.hist.clone();
+    for k in [
+        "txn_fail",
+        "txn_commit",
+        "txn_aborted",
+        "failed_single_queries",
+        "failed_single_queries_after_partial_work",
+        "failed_txn_after_mutation",
+        "replacements",
+        "indexed_replacements",
+        "alias_steals",
+        "alias_reassignments",
+        "id_reuse",
+        "self_loops",
+        "parallel_edges",
+        "nodes_removed_with_edges",
+        "memory_cases",
+        "file_cases",
+        "corpus_cases",
+        "ref_resyncs_changed_state",
+        "out:timeout",
+        "timeout_cases",
+    ] {
+        hist.entry(k.to_string()).or_insert(0);
+    }
+    let hist_json = hist
         .iter()
         .map(|(k, v)| format!("{}:{}", json_str(k), v))
         .collect::<Vec<_>>()
